@@ -368,6 +368,9 @@ Definition OP_DROPDISP := 9%Z. Definition OP_SEND := 10%Z. Definition OP_TRYSEND
 
 (* register_dispatcher; the object o = h is created by the scenario (Dispatcher::new) and kept by the harness *)
 Definition do_insert (s : st) (h : N) (x : src) : st :=
+  match objs s h with
+  | Some _ => emit s (op_line OP_INSERT h RInvalid)   (* scenario error: a handle id names one dispatcher object *)
+  | None =>
   let s0 := set_objs s (fupd (objs s) h (Some (mkObj x true))) in
   match vacant_entry (slots s0) with
   | None => panic s0 P_OTHER
@@ -384,6 +387,7 @@ Definition do_insert (s : st) (h : N) (x : src) : st :=
           | _ => emit (set_slots s2 (upd (slots s2) i (mkSlot t None (s_gen e)))) (op_line OP_INSERT h r)
           end
       end
+  end
   end.
 
 (* resolve a handle's token to an occupied slot *)
